@@ -7,7 +7,7 @@ STACK_ADDR, PEER_ADDR = 0x20, 0x30
 FD_LAST = [29, 45, 4, 5, 8, 9, 12, 13, 16, 17, 20, 21, 28, 44, 1, 59, 60]
 
 
-def gen(rng, k, dll=None, big=False):
+def gen(rng, k, dll=None, big=False, presend=False):
     forced = dll is not None
     dll = dll or rng.choice(['j1939-21', 'j1939-22'])
     if not forced and k % 4 == 0:
@@ -60,6 +60,10 @@ def gen(rng, k, dll=None, big=False):
     if rng.random() < 0.3:
         # cyclic application timers on the same ECU (periods above and below the 200 ms a broadcast may pause)
         sc['app_timers'] = [rng.choice([120000, 230000, 500000, 1000000]) for _ in range(rng.choice([1, 1, 2]))]
+    if presend and fd and role == 'stack-originator' and not bam and rng.random() < 0.5:
+        # the stack has other FD transfers open (to addresses nobody owns; they time out) when it starts this one, so this
+        # one runs under a session number other than 0: every frame of it must carry that number
+        sc['presend'] = rng.choice([1, 2, 3, 7])
     biv = bam_iv if bam_iv is not None else (0.05 if not fd else 0.01)
     wmin = max(1, min(min(windows), max_cmdt or 255, plan['limit']))     # the RTS limit (either side's) clips every window
     nwin = (n + wmin - 1) // wmin
@@ -90,6 +94,8 @@ def runner(sc):
             ps = sc['ps'] if sc['ps'] is not None else PEER_ADDR
 
             def go():
+                for i in range(sc.get('presend', 0)):
+                    st.send_pgn(0, 0xD0, 0x50 + i, 6, STACK_ADDR, scen.lcg_bytes(sc['seed'] + 1 + i, 61 + i))
                 res.ret = st.send_pgn(sc['dp'], sc['pf'], ps, sc['prio'], STACK_ADDR, data)
             sim.at(1000, go)
         else:
@@ -170,7 +176,7 @@ def oracle_c03(sc, res):
                     v.append(dict(kind='announcement-fields', got=m, expected=dict(size=len(data), n=n, pgn=pgn, limit=min(sc['max_cmdt'], n))))
                 if m['kind'] == 'BAM' and e[6][4] != 0xFF:
                     v.append(dict(kind='bam-reserved-byte', got=e[6][4]))
-            if fd and pf == 0x4D and (e[6][0] & 0xF) in (0, 4, 2):
+            if fd and pf == 0x4D and (e[6][0] & 0xF) in (0, 4, 2) and (pg & 0xFF) in (PEER_ADDR, 255):
                 d = e[6]
                 size = d[1] | (d[2] << 8) | (d[3] << 16)
                 ns = d[4] | (d[5] << 8) | (d[6] << 16)
